@@ -8,6 +8,8 @@ import CobaVerif.Lemmas.C05Period
 import CobaVerif.Generated.LcgConsts
 import CobaVerif.Lemmas.C05Module
 import CobaVerif.Generated.C05Source
+import CobaVerif.Lemmas.C05Reservoir
+import CobaVerif.Generated.C05Reservoir
 
 namespace Coba.C05
 
@@ -346,5 +348,44 @@ theorem pickle_restores_seed_exact (f : Gen → Op → Gen × Out) (s : Nat) (op
 
 /-- the parametrised runner instantiated with `step` is the phase-4 runner -/
 theorem crunW_step (st : Nat → Inst) (h : List (Nat × Call)) : crunW step st h = crun st h := crunW_step' st h
+
+/-! ### Phase 5: a caller that walks the stream in batches (`pipes.filters.Reservoir`) -/
+
+/-- translator obligation: the literals of `Reservoir.filter` (draw `3*batch_size` uniforms, `range(0,3*batch_size,3)`,
+slices `[i:i+3]`, three loop targets, `batched_randoms_forever(20)`, in-place shuffle first) as read off
+coba/pipes/filters.py by `ast` on this run are the ones the model is written for -/
+theorem reservoir_source_match : Coba.Generated.C05.resNums = resNums ∧ resBatch = 20 := by decide
+
+/-- translator obligation: the Box–Muller EXPRESSIONS (sqrt of `-2`·log of the first uniform, `2`·pi·the second uniform, cosine value
+yielded before the sine value, `mu+sigma*g`, `gauss` = first element of `gausses(1)`) as read off coba/random.py on this run are the
+ones `gauss1`/`GaussDesc` and `Lemmas/C05Real.lean` are written for -/
+theorem gauss_source_match : Coba.Generated.C05.gaussShape = srcGauss := by decide
+
+/-- for EVERY batch size, generator state and number of batches: batches of `3*b` uniforms handed out in threes are
+exactly the consecutive triples of the seed's stream (no uniform skipped, none used twice, across every batch border) -/
+theorem reservoir_walk_is_stream (b s k : Nat) : batchedTriples (3 * b) s k = streamTriples s (b * k) :=
+  reservoir_walk_is_stream' b s k
+
+theorem reservoir_walk_length (b s k : Nat) : (batchedTriples (3 * b) s k).length = b * k :=
+  reservoir_walk_length' b s k
+
+/-- what Reservoir(count,seed) consumes is the model's shuffle of its first `count` items followed by the stream
+from where the shuffle left it (the driver runs `reservoirWalk`) -/
+theorem reservoir_consumes_stream (s count b k : Nat) :
+    reservoirWalk s count b k =
+      ((shuffle s (List.range count)).2, streamTriples (shuffle s (List.range count)).1 (b * k)) :=
+  reservoir_consumes_stream' s count b k
+
+/-- `randoms(n)` hands out exactly the next `n` uniforms and leaves the generator `n` steps further -/
+theorem randoms_eq_unums (s n : Nat) :
+    randoms s n 0 1 = (adv s n, (unums s n).map (fun k => (k : Rat) / (M : Rat))) := randoms_eq_unums' s n
+
+theorem adv_eq_iterate (s n : Nat) : adv s n = next^[n] s := adv_eq_iterate' s n
+
+/-- the hypothesis "batch = multiple of three" is needed: 64 uniforms per batch walked in threes (seeded change C05-hm3)
+drop one uniform per batch; replayed on the real code by the corpus (Reservoir runs of > 21 and > 42 replacements) -/
+theorem reservoir_walk_counterexample : batchedTriples 64 1 2 ≠ streamTriples 1 42 := reservoir_walk_counterexample'
+
+example : (batchedTriples (3 * 20) 1 3).length = 60 := by decide +kernel
 
 end Coba.C05
